@@ -46,12 +46,12 @@ const char * const engine_counters[] = {
 enum {
 	OP_REG_IMM, OP_REG_NET, OP_CANCEL_NET, OP_REG_TMR, OP_CANCEL_IMM, OP_CANCEL_TMR, OP_RESET_TMR,
 	OP_ENV, OP_INTR, OP_RET, OP_WORK, OP_SETDONE, OP_REG_NET_SELF, OP_CANCEL_NET_SELF,
-	OP_CANCEL_NET_SLOT, OP_NOP, OP_NOPS
+	OP_CANCEL_NET_SLOT, OP_REREG_NET, OP_NOP, OP_NOPS
 };
 static const char * const opname[] = {
 	"reg_imm", "reg_net", "cancel_net", "reg_tmr", "cancel_imm", "cancel_tmr", "reset_tmr",
 	"env", "intr", "ret", "work", "setdone", "reg_net_self", "cancel_net_self",
-	"cancel_net_slot", "nop"
+	"cancel_net_slot", "rereg_net", "nop"
 };
 
 /* ---------- sim clock ---------- */
@@ -626,6 +626,16 @@ do_op(int op, int64_t a, int64_t b, int64_t c, int * rc)
 		else
 			op_cancel_net((int)a, (int)b);
 		break;
+	case OP_REREG_NET:
+		/* cancel and at once re-register the same descriptor and direction (a fresh registration: nothing reported yet) */
+		{
+			int fi = (int)(((a % nfdu) + nfdu) % nfdu), dir = (int)(b & 1);
+
+			if (netreg[fi][dir] >= 0)
+				op_cancel_net(fi, dir);
+			op_reg_net(fi, dir, (int)c);
+		}
+		break;
 	case OP_CANCEL_NET_SLOT:
 		/* cancel whatever sat in the last (a even) or first (a odd) slot of the latest poll array */
 		if (lastpoll_n > 0) {
@@ -1065,7 +1075,8 @@ gen_action(struct prng * g, int64_t * v, int nal, int incb, int nfd)
 {
 	static const int w_cb[] = { OP_REG_IMM, OP_REG_IMM, OP_REG_NET, OP_REG_NET, OP_CANCEL_NET, OP_REG_TMR, OP_REG_TMR,
 	    OP_CANCEL_IMM, OP_CANCEL_TMR, OP_RESET_TMR, OP_ENV, OP_ENV, OP_INTR, OP_RET, OP_WORK, OP_SETDONE,
-	    OP_REG_NET_SELF, OP_REG_NET_SELF, OP_CANCEL_NET_SELF, OP_CANCEL_NET_SLOT, OP_CANCEL_NET_SLOT };
+	    OP_REG_NET_SELF, OP_REG_NET_SELF, OP_CANCEL_NET_SELF, OP_CANCEL_NET_SLOT, OP_CANCEL_NET_SLOT, OP_REREG_NET, OP_REREG_NET,
+	    OP_REREG_NET };
 	static const int w_out[] = { OP_REG_IMM, OP_REG_IMM, OP_REG_NET, OP_REG_NET, OP_REG_NET, OP_CANCEL_NET, OP_REG_TMR,
 	    OP_REG_TMR, OP_CANCEL_IMM, OP_CANCEL_TMR, OP_RESET_TMR, OP_ENV, OP_ENV, OP_ENV, OP_WORK, OP_CANCEL_NET_SLOT };
 	int op;
@@ -1085,7 +1096,7 @@ gen_action(struct prng * g, int64_t * v, int nal, int incb, int nfd)
 	case OP_REG_IMM:
 		v[1] = prng_chance(g, 40) ? (int64_t)prng_n(g, 3) : (int64_t)prng_n(g, 32);
 		break;
-	case OP_REG_NET: case OP_CANCEL_NET: case OP_REG_NET_SELF: case OP_CANCEL_NET_SELF:
+	case OP_REG_NET: case OP_CANCEL_NET: case OP_REG_NET_SELF: case OP_CANCEL_NET_SELF: case OP_REREG_NET:
 		v[1] = prng_n(g, (uint32_t)nfd);
 		v[2] = prng_n(g, 2);
 		break;
